@@ -307,6 +307,7 @@ static inline float bits2f(unsigned b) { float d; std::memcpy(&d, &b, 4); return
 #define __CPROVER_assigns(...)
 #define __CPROVER_isfinited(x) std::isfinite(x)
 #define __CPROVER_isnand(x) std::isnan(x)
+#define __CPROVER_fabs(x) std::fabs(x)
 #define FEAT_abs(x) ((x) < 0 ? -(x) : (x))
 #define FEAT_min(a, b) ((a) < (b) ? (a) : (b))
 #define FEAT_max(a, b) ((a) < (b) ? (b) : (a))
@@ -521,8 +522,9 @@ def bounded_and_native(sp, unit, cfgname, wd, base):
         cfg = sp.configs[cfgname]
         inc = '-I%s -I%s' % (os.path.join(HERE, 'shim'), os.path.join(VERIF, 'contracts', 'lib'))
         solver = cfg.get('bounded_solver', cfg.get('solver', 'sat'))
+        qdefs = ' '.join(E.shlex.quote(d) for d in cfg.get('defs', '').split())
         cmd = 'cbmc %s %s %s --function bharness --nondet-static --unwind %d --bounds-check --pointer-check --div-by-zero-check --trace --json-ui -DVERIF_BOUNDED=1 %s' % (
-            inc, cfg.get('defs', ''), cfile, bound + 2, E.SOLVERS.get(solver, ''))
+            inc, qdefs, cfile, bound + 2, E.SOLVERS.get(solver, ''))
         rc, out, err, dt = E.sh(cmd, int(cfg.get('bounded_timeout', '240')))
         extra['bounded_cmd'] = cmd
         extra['bounded_s'] = round(dt, 1)
